@@ -49,6 +49,9 @@ def havoc(ip, v, name):
     if isinstance(v, ZSeq):
         return ZSeq(V.fresh(name, V.VS), v.kind)
     if isinstance(v, Z):
+        from .builtins_model import FreshZ
+        if isinstance(v, FreshZ):
+            return FreshZ(V.fresh(name), v.cls, v.deep)
         return Z(V.fresh(name), v.cls)
     if isinstance(v, SObj):
         return v          # object identity is kept; mutated attributes are havoc'd through the invariant's modifies list
@@ -76,9 +79,11 @@ def symbolic_for(ip, node, it, fr):
     inv = None
     owner = fr.name
     c2 = ip.contracts.get(owner)
-    if c2 is not None and key in c2.invariants:
+    if c2 is not None and key in c2.invariants and not getattr(ip, "frame_only", False):
         inv = c2.invariants[key]
     if inv is None:
+        if getattr(ip, "frame_only", False):
+            return trivial_for(ip, node, it, fr)
         raise Unsupported(f"loop over a symbolic sequence without an invariant: `{key}` in {owner}")
     r = iter_elements(ip, it)
     seq, elem = r[0], r[1]
@@ -131,3 +136,27 @@ def _pick(ip, fn, env):
         else:
             raise Unsupported(f"invariant names unknown local {nme!r}")
     return out
+
+
+def trivial_for(ip, node, it, fr):
+    """Frame-only verification: the loop is cut with the invariant `True` (every variable the body may change is
+    havoc'd); frame obligations are independent of values, so this loses nothing for them."""
+    from .interp import BreakSig, ContinueSig
+    r = iter_elements(ip, it)
+    seq, elem = r[0], r[1]
+    modified = sorted((assigned_names(node.body) | mutated_names(node.body) | assigned_names([node.target])) & set(fr.env))
+    which = ip.path.choose([True, True], structural=True)
+    for name in modified:
+        fr.env[name] = havoc(ip, fr.env[name], name)
+    if which == 0:
+        k = V.fresh("k", V.I)
+        ip.path.assume(z3.And(k >= 0, k < z3.Length(seq)))
+        ip.assign_target(node.target, elem(k), fr)
+        try:
+            ip.exec_block(node.body, fr)
+        except ContinueSig:
+            pass
+        except BreakSig:
+            return
+        raise PathEnd()
+    ip.exec_block(node.orelse, fr)
